@@ -1251,6 +1251,7 @@ package xpath
 //@   loop * invariant[cursor@C13] cur(t) == old(cur(t)) && pos(cur(t)) == old(pos(cur(t)))
 //@ func (*descendantQuery).Select
 //@   props C15 C13 C01 C12
+//@   loop 0 invariant[walks-every-input@C01] called(Select, 0) ==> called(Copy, 0)     // a round that pulls an input node sets a walker up on a copy of it, whatever kind of node it is (with Self the input node itself is a candidate)
 //@   theory stream for C13 C01 C12
 //@   uses one-document
 //@   requires[@C15] t != nil
@@ -1312,7 +1313,8 @@ package xpath
 //@ define built(q, err) = err == nil ==> q != nil && !is(q, nopQuery)
 
 //@ func (*builder).processNode
-//@   props C15 C06 C17 C01
+//@   props C15 C06 C17 C01 C03
+//@   ensures[group-is-opaque@C03!!] called(processNode, 0) ==> argval(processNode, 0, 1) == 0     // what stands in parentheses is built on its own: none of the flags of the surrounding step or predicate reach inside
 //@   ensures[pruned-only-on-request@C01] err == nil && (flags & 1) == 0 ==> !is(q, *descendantOverDescendantQuery)
 //@   requires[depth@C06] 0 <= b.parseDepth && b.parseDepth <= 1024
 //@   maypanic
@@ -1359,7 +1361,8 @@ package xpath
 //@   requires root != nil
 //@   ensures[wf@C15] built(result0, result1)
 //@ func (*builder).processFunction
-//@   props C15 C06 C17 C16 C01
+//@   props C15 C06 C17 C16 C01 C12
+//@   ensures[reverse@C12!!] result1 == nil && root.FuncName == "reverse" ==> is(result0, *transformFunctionQuery) && fn(as(result0, *transformFunctionQuery).Func) == fnid("reverseFunc")     // reverse() always buffers and reverses its argument, whatever order the argument comes in
 //@   ensures[never-pruned@C01] result1 == nil ==> !is(result0, *descendantOverDescendantQuery)
 //@   requires[depth@C06] 0 <= b.parseDepth && b.parseDepth <= 1024
 //@   maypanic
